@@ -245,12 +245,17 @@ def floor(x):
     return P.atom('floor(%s)' % rest.canon()) + ki
 
 
+NONINTEGRAL = set()     # atom names that stand for fractions (e.g. a split ratio): a rule adds them before building its terms
+
+
 def _integral(p):
     """polynomial with integer coefficients and natural exponents over plain atoms (sizes, strides ...) is integer valued"""
     for m, c in p.t.items():
         if c.denominator != 1:
             return False
         for n, e in m:
+            if n in NONINTEGRAL:
+                return False
             if e.denominator != 1 or e < 0 or n.startswith('(') or n.startswith('#') or n.startswith('floor(') is False and n.startswith('pow('):
                 return False
     return True
